@@ -507,9 +507,12 @@ def run(ctx):
     key, obs, info = c_extmod.module_loop_obligations()
     for u in info.get("unsupported", []):
         ctx.unsupported.append((key, u))
-    if len(obs) < 6 and not info.get("unsupported"):
+    if len(obs) < 4 and not info.get("unsupported") and not info.get("iteration_offenders"):
         ctx.checker_errors.append(f"only {len(obs)} obligations for the loops of {key}")
-    ctx.discharge(obs, key + " [signal / port / instance loops: iterate over all; one record per element, appended last]", info)
+    ctx.frame_audit(key + "/iteration-sources", info.get("iteration_offenders", []),
+                    "a loop of export_module no longer runs over the module's whole collection as written",
+                    n=max(1, info.get("iteration_sources", 0)))
+    ctx.discharge(obs, key + " [signal / port / instance / literal loops: one record per element, appended last]", info)
     ctx.assumptions.append("export_module: its three loops are proved per iteration, and their iteration sources are "
                            "compared as source text; export_instance's frame (never the lists of the record under "
                            "construction) is assumed; the memo / name tables are decided by the bounded part")
